@@ -282,10 +282,43 @@ type wsCase struct {
 	once   bool
 	wf     bool
 	rdconc int
+	pre    int // prelude run on OTHER objects before the session (pool history): 0 none; 1 a sequential ReadFrom whose source fails; 2 a concurrent one; 3 a Reader abandoned mid-stream
 }
 
 func (c *wsCase) fields() string {
-	return fmt.Sprintf("ops=%s fault=%d once=%d wf=%d rdconc=%d", strings.Join(c.ops, ";"), c.fault, b2i(c.once), b2i(c.wf), c.rdconc)
+	f := fmt.Sprintf("ops=%s fault=%d once=%d wf=%d rdconc=%d", strings.Join(c.ops, ";"), c.fault, b2i(c.once), b2i(c.wf), c.rdconc)
+	if c.pre != 0 {
+		f += fmt.Sprintf(" pre=%d", c.pre)
+	}
+	return f
+}
+
+// prelude exercises other Writer/Reader objects so that the package pools have a history when the
+// session starts (C14: output does not depend on what the pools processed before)
+func prelude(kind int) {
+	if kind == 0 {
+		return
+	}
+	defer func() { recover() }()
+	for _, bs := range []lz4.BlockSize{lz4.Block64Kb, lz4.Block256Kb} {
+		switch kind {
+		case 1, 2:
+			var b bytes.Buffer
+			zw := lz4.NewWriter(&b)
+			zw.Apply(lz4.BlockSizeOption(bs), lz4.ConcurrencyOption(kind))
+			src := &source{data: genData(0, 77, 3*int(bs)+100), failAt: 3, r: newRng(1, "pre")}
+			zw.ReadFrom(src)
+			zw.Close()
+		case 3:
+			var b bytes.Buffer
+			zw := lz4.NewWriter(&b)
+			zw.Apply(lz4.BlockSizeOption(bs))
+			zw.Write(genData(1, 5, 3*int(bs)))
+			zw.Close()
+			zr := lz4.NewReader(bytes.NewReader(b.Bytes()))
+			zr.Read(make([]byte, 100))
+		}
+	}
 }
 
 func b2i(b bool) int {
@@ -326,7 +359,8 @@ func readBack(frame []byte, conc int, mode int, r *rng) (out []byte, err error) 
 }
 
 func runWS(c *wsCase) string {
-	return withWatchdog(8*time.Second, func() string {
+	return withWatchdog(20*time.Second, func() string {
+		prelude(c.pre)
 		g0 := runtime.NumGoroutine()
 		sk := &sink{failAt: c.fault, once: c.once}
 		sinks := []*sink{sk}
@@ -454,7 +488,7 @@ func runWS(c *wsCase) string {
 		// C08: no goroutine of the library remains after Close returned
 		leak := "ok"
 		if len(c.ops) > 0 && c.ops[len(c.ops)-1] == "C" { // Close has returned (with or without error)
-			deadline := time.Now().Add(300 * time.Millisecond)
+			deadline := time.Now().Add(5 * time.Second) // a goroutine that is still winding down is not a leak: only one that never ends is
 			for runtime.NumGoroutine() > g0 && time.Now().Before(deadline) {
 				time.Sleep(2 * time.Millisecond)
 			}
@@ -483,7 +517,7 @@ func (c *rsCase) fields() string {
 }
 
 func runRS(c *rsCase) string {
-	return withWatchdog(8*time.Second, func() string {
+	return withWatchdog(20*time.Second, func() string {
 		g0 := runtime.NumGoroutine()
 		var ms0 runtime.MemStats
 		runtime.ReadMemStats(&ms0)
@@ -587,7 +621,7 @@ func runRS(c *rsCase) string {
 		leak := "ok"
 		switch final { // end of stream, or a source / decoding error has been reported
 		case "eof", "ueof", "injected", "badframe", "hdrsum", "blksum", "frmsum", "blksize", "short":
-			deadline := time.Now().Add(300 * time.Millisecond)
+			deadline := time.Now().Add(5 * time.Second) // a goroutine that is still winding down is not a leak: only one that never ends is
 			for runtime.NumGoroutine() > g0 && time.Now().Before(deadline) {
 				time.Sleep(2 * time.Millisecond)
 			}
@@ -625,7 +659,8 @@ type crCase struct {
 	sizes []int
 	frag  int
 	fault int
-	once  bool // the source fails at that call only
+	once  bool   // the source fails at that call only
+	data2 string // when set: Reset onto a second source after the first session and read it completely
 }
 
 func (c *crCase) fields() string {
@@ -633,11 +668,15 @@ func (c *crCase) fields() string {
 	for i, s := range c.sizes {
 		ss[i] = strconv.Itoa(s)
 	}
-	return fmt.Sprintf("data=%s opts=%s sizes=%s frag=%d fault=%d once=%d", c.data, c.opts, strings.Join(ss, ","), c.frag, c.fault, b2i(c.once))
+	f := fmt.Sprintf("data=%s opts=%s sizes=%s frag=%d fault=%d once=%d", c.data, c.opts, strings.Join(ss, ","), c.frag, c.fault, b2i(c.once))
+	if c.data2 != "" {
+		f += " data2=" + c.data2
+	}
+	return f
 }
 
 func runCR(c *crCase) string {
-	return withWatchdog(8*time.Second, func() string {
+	return withWatchdog(20*time.Second, func() string {
 		d := parseData(c.data)
 		src := &source{data: d, frag: c.frag, failAt: c.fault, once: c.once, r: newRng(uint64(len(d)), "cr")}
 		zr := lz4.NewCompressingReader(nopCloser{src})
@@ -674,6 +713,10 @@ func runCR(c *crCase) string {
 			if i >= len(c.sizes) && sz == 0 {
 				sz = 64
 			}
+			if c.data2 != "" && i >= len(c.sizes) {
+				final = "abandoned" // reuse sessions make exactly the listed reads
+				break
+			}
 			p := make([]byte, sz)
 			n, err := zr.Read(p)
 			if n < 0 || n > sz {
@@ -696,20 +739,43 @@ func runCR(c *crCase) string {
 			}
 		}
 		obs := fmt.Sprintf("apply=%s nreads=%d final=%s out=%s oracle_progress=%s", ao, len(res), final, hx(all), progress)
-		if c.once || (c.fault > 0 && c.frag != 0) {
+		if c.once || (c.fault > 0 && c.frag != 0) || c.data2 != "" {
 			// transient failures and call-counted failures of fragmenting sources are outside the
 			// model's sources (which count io.ReadFull calls): oracles only
 			obs = fmt.Sprintf("x_apply=%s x_nreads=%d x_final=%s x_out=%s oracle_progress=%s", ao, len(res), final, hx(all), progress)
 		}
 		// a frame that the library's own Reader decodes to the source
 		rt := "ok"
-		if c.fault == 0 {
+		if final == "abandoned" {
+			// nothing to say about the first session
+		} else if c.fault == 0 {
 			out, err := readBack(all, 1, 0, nil)
 			if final != "eof" || err != nil || !bytes.Equal(out, d) {
 				rt = fmt.Sprintf("fail:final=%s-err=%s-got%d-want%d", final, errClass(err), len(out), len(d))
 			}
 		} else if src.failAt > 0 && src.calls >= src.failAt && final != "injected" {
 			rt = "fail:source-error-not-passed-through:" + final
+		}
+		// reuse (C18 with C17's "Reset makes the object a new one"): whatever happened in the first
+		// session — clean end, source failure in the middle of a Read, reads abandoned half-way —
+		// after Reset the reader yields exactly one frame of the second source
+		if c.data2 != "" {
+			d2 := parseData(c.data2)
+			zr.Reset(nopCloser{&source{data: d2, r: newRng(9, "cr2")}})
+			var all2 []byte
+			var err2 error
+			for i := 0; i < 200000 && err2 == nil; i++ {
+				p := make([]byte, []int{4096, 7, 100}[i%3])
+				var n int
+				n, err2 = zr.Read(p)
+				all2 = append(all2, p[:n]...)
+			}
+			rt2 := "ok"
+			out2, derr := readBack(all2, 1, 0, nil)
+			if err2 != io.EOF || derr != nil || !bytes.Equal(out2, d2) {
+				rt2 = fmt.Sprintf("fail:after-Reset-final=%s-decode=%s-got%d-want%d", errClass(err2), errClass(derr), len(out2), len(d2))
+			}
+			rt += " oracle_rt2=" + rt2
 		}
 		return obs + " oracle_rt=" + rt
 	})
